@@ -46,6 +46,7 @@
  * ops (counted iff FSSHIM_COUNT_SYNC=1): fsync
  * ops (read-type, never counted, only with FSSHIM_SCHED_READS/LOG_READS): exists openr read
  *      kill0 (= kill(pid, 0), path "-", detail target=<pid>)
+ *      flock / funlock (= flock(fd, LOCK_EX|LOCK_SH) / flock(fd, LOCK_UN) on a watched descriptor; see flock() below)
  * ops (diagnostic, never counted): rawsyscall warn
  *
  * Semantics of the fault modes at event k (= FSSHIM_AT, counted events only):
@@ -82,6 +83,7 @@
 #include <string.h>
 #include <sys/sendfile.h>
 #include <sys/stat.h>
+#include <sys/file.h>
 #include <sys/syscall.h>
 #include <sys/time.h>
 #include <sys/types.h>
@@ -191,6 +193,7 @@ static time_t (*r_time)(time_t *);
 static long (*r_syscall)(long, ...);
 static void (*r__exit)(int);
 static int (*r_kill)(pid_t, int);
+static int (*r_flock)(int, int);
 
 static void resolve_all(void) {
 #define R(p, name) p = dlsym(RTLD_NEXT, name)
@@ -205,7 +208,7 @@ static void resolve_all(void) {
     R(r_stat, "stat64"); R(r_lstat, "lstat64"); R(r_fstatat, "fstatat64"); R(r_statx, "statx");
     R(r_access, "access"); R(r_faccessat, "faccessat");
     R(r_clock_gettime, "clock_gettime"); R(r_gettimeofday, "gettimeofday"); R(r_time, "time");
-    R(r_syscall, "syscall"); R(r__exit, "_exit"); R(r_kill, "kill");
+    R(r_syscall, "syscall"); R(r__exit, "_exit"); R(r_kill, "kill"); R(r_flock, "flock");
 #undef R
 }
 
@@ -1321,6 +1324,37 @@ int kill(pid_t pid, int sig) {
     t_guard--;
     errno = err;
     return ret;
+}
+
+/* flock(fd, LOCK_EX | LOCK_SH) on a descriptor of a watched path is a read-type schedulable point `flock <path>`
+ * (renamify's lock code serialises its inspect-then-change sequences with it), flock(fd, LOCK_UN) is `funlock <path>`.
+ * While the scheduler is in control a granted `flock` is ONE non-blocking attempt: if another process holds the
+ * lock the attempt is logged as `=> EAGAIN` and the request is posted again, so the scheduler never waits for a
+ * process that sleeps in the kernel; the caller still sees a blocking flock.  Without a scheduler (or once the
+ * process was freed) the call blocks as usual. */
+int flock(int fd, int op) {
+    ENSURE_INIT();
+    if (!r_flock) return (int)r_syscall(SYS_flock, (long)fd, (long)op);
+    if (t_guard || !READS_ON() || fd_kind(fd) == FD_NONE) return r_flock(fd, op);
+    int base = op & ~LOCK_NB;
+    for (;;) {
+        t_guard++;
+        struct ev e;
+        ev_init(&e, base == LOCK_UN ? "funlock" : "flock", 0);
+        e.readtype = 1;
+        strncpy(e.p1, g_fd[fd].path, PATH_MAX - 1);
+        e.p1[PATH_MAX - 1] = 0;
+        ev_detail(&e, " op=%s", base == LOCK_EX ? "LOCK_EX" : base == LOCK_SH ? "LOCK_SH" : "LOCK_UN");
+        ev_before(&e);
+        int scheduled = cfg.sched && !atomic_load(&g_sched_free);
+        int ret = r_flock(fd, (scheduled && base != LOCK_UN) ? (op | LOCK_NB) : op);
+        int err = errno;
+        ev_after(&e, ret, err);
+        t_guard--;
+        if (ret != 0 && err == EWOULDBLOCK && scheduled && !(op & LOCK_NB)) continue;   /* post the request again */
+        errno = err;
+        return ret;
+    }
 }
 
 /* ------------------------------------------------------------------------------------------------ */
